@@ -53,6 +53,7 @@ func buildC14Driver() (string, error) {
 	}
 	total := 0
 	uncontrolled := 0
+	rewritten := 0
 	for _, pk := range []struct{ dir, path string }{{"/repo", "github.com/runreveal/pql"}, {"/repo/parser", "github.com/runreveal/pql/parser"}} {
 		res, err := instr.Package(pk.dir, pk.path, resolve)
 		if err != nil {
@@ -60,6 +61,7 @@ func buildC14Driver() (string, error) {
 		}
 		total += res.Points
 		uncontrolled += res.Uncontrolled
+		rewritten += res.Rewritten
 		for orig, src := range res.Files {
 			rel := strings.TrimPrefix(orig, "/repo/")
 			dst := filepath.Join(scratch, "instr", rel+".instrumented")
@@ -86,6 +88,10 @@ func buildC14Driver() (string, error) {
 		return "", fmt.Errorf("build of the instrumented driver failed: %v\n%s", err, o)
 	}
 	fmt.Fprintf(os.Stderr, "C14: instrumented %d access sites\n", total)
+	if rewritten > 0 {
+		fmt.Fprintf(os.Stderr, "C14: %d go statements / channel operations of the code under test are run as controlled threads\n", rewritten)
+		os.Setenv("VERIF_C14_REWRITTEN", fmt.Sprint(rewritten))
+	}
 	if uncontrolled > 0 {
 		fmt.Fprintf(os.Stderr, "C14: the code under test has %d go statements / channel operations, which the cooperative scheduler does not control\n", uncontrolled)
 		os.Setenv("VERIF_C14_UNCONTROLLED", fmt.Sprint(uncontrolled))
